@@ -149,7 +149,7 @@ def families(q):
 
 
 MC_QUICK = ["Lists_MC_quick_lists.cfg", "Lists_MC_quick_notes.cfg", "Lists_MC_quick_notes2.cfg", "Lists_MC_quick_toc.cfg"]
-MC_THOROUGH = ["Lists_MC_thorough_lists.cfg", "Lists_MC_thorough_notes.cfg", "Lists_MC_thorough_toc.cfg"]
+MC_THOROUGH = ["Lists_MC_thorough_lists.cfg", "Lists_MC_thorough_notes.cfg", "Lists_MC_thorough_toc.cfg", "Lists_MC_quick_toc.cfg"]
 
 
 def model_checks(ctx, cfgs, workers):
